@@ -3,6 +3,7 @@ package analysis
 import (
 	"fmt"
 	"go/types"
+	"golang.org/x/tools/go/packages"
 	"strings"
 )
 
@@ -20,9 +21,19 @@ func HC12_sourceOrder() {
 	perm := c12Perms4[vfChoice("order", len(c12Perms4))]
 	src := "package p\n\n"
 	var order []string
-	for _, i := range perm {
+	// an alias of Zeta declared anywhere among the others: it keeps its own place in the source order
+	aliasAt := vfChoice("aliasAt", 6) // 5 = no alias
+	for k, i := range perm {
+		if k == aliasAt {
+			src += "type Again = Zeta\n\n"
+			order = append(order, "Again")
+		}
 		src += decls[names[i]] + "\n"
 		order = append(order, names[i])
+	}
+	if aliasAt == 4 {
+		src += "type Again = Zeta\n"
+		order = append(order, "Again")
 	}
 	other := "package p\n\ntype Elsewhere struct{ B bool }\n"
 	pkg := vfTypeCheck("example.com/mod/p", []string{"/m/p/types.go", "/m/p/other.go"}, []string{src, other}, nil)
@@ -36,8 +47,14 @@ func HC12_sourceOrder() {
 	ok := len(ana.Source) == len(order)
 	if ok {
 		for i, n := range order {
-			named, isNamed := ana.Source[i].(*types.Named)
-			ok = ok && isNamed && named.Obj().Name() == n
+			name := ""
+			switch t := ana.Source[i].(type) {
+			case *types.Named:
+				name = t.Obj().Name()
+			case *types.Alias:
+				name = t.Obj().Name()
+			}
+			ok = ok && name == n
 		}
 	}
 	vfAssert(ok, "C12/source-declarations-are-reported-in-source-order")
@@ -81,6 +98,10 @@ func HC10_realSource() {
 		{"const A E = 5 // gomacro:no-enum\n", nil, nil, false, false},
 		{"const (\n\tA E = iota // gomacro:no-enum\n\tB // kept\n)\n", []string{"B"}, []string{"kept"}, false, true},
 		{"var A E = 3\n", nil, nil, false, false},
+		// declarations spanning several lines: the trailing comment stands after the last line
+		{"const A E = 1 +\n\t2 // gomacro:no-enum\n", nil, nil, false, false},
+		{"const (\n\tA E = 1 |\n\t\t2 // three\n\tB E = 4 // four\n)\n", []string{"A", "B"}, []string{"three", "four"}, false, true},
+		{"const (\n\tA E = 1 +\n\t\t1 // gomacro:no-enum\n\tB E = 0 // kept\n)\n", []string{"B"}, []string{"kept"}, true, true},
 	}
 	v := variants[vfChoice("variant", len(variants))]
 	under := "int"
@@ -145,6 +166,8 @@ func HC11_realSource() {
 		"type Ptr struct{ X int }\n\nfunc (*Ptr) isShape() {}\n\n" +
 		"type Wrapped struct {\n\tCircle\n\tLabel string\n}\n\n" +
 		"type Count int\n\nfunc (Count) isShape() {}\n\n" +
+		"type Legacy struct{ X int }\n\nfunc (Legacy) isShape() bool { return true }\n\n" + // same method name, another signature: not a member
+		"type Drawable interface{ Shape }\n\n" + // only embedded interfaces
 		"type Holder struct {\n\t" + field + "\n"
 	if vfChoice("aliases", 2) == 1 {
 		// alias declarations name no new type: they add no member
@@ -242,4 +265,110 @@ func HC12_aliases() {
 		kinds = elemNamed && valStruct && keyBasic && kb.Kind() == BKString
 	}
 	vfAssert(kinds, "C12/nodes-are-classified-as-go-types-reports")
+}
+
+// HC12_lookAlikes: only time.Time (and named types over it) are times: a struct that merely has
+// fields named like time.Time's is analysed as the struct it is, its field types being reached.
+func HC12_lookAlikes() {
+	src := "package p\n\nimport \"time\"\n\ntype Wall struct{ Height int }\n\ntype Extension struct{ Name string }\n\ntype Location struct{ X, Y int }\n\n" +
+		"type Room struct {\n\twall Wall\n\text Extension\n\tloc Location\n}\n\n" +
+		"type Stamp time.Time\n\ntype Holder struct {\n\tR Room\n\tRs []Room\n\tAt time.Time\n\tS Stamp\n}\n"
+	pkg := vfTypeCheck("example.com/mod/p", []string{"/m/p/a.go"}, []string{src}, nil)
+	lookup := func(name string) types.Type { return pkg.Types.Scope().Lookup(name).Type() }
+	var ana *Analysis
+	panicked, rt, msg := vfCatch(func() { ana = NewAnalysisFromTypes(pkg, []types.Type{lookup("Holder")}) })
+	vfObserve("outcome", msg)
+	vfAssert(!panicked && !rt, "C12/analysis-of-a-real-source-file-completes")
+	if panicked {
+		return
+	}
+	room, isStruct := ana.Types[lookup("Room")].(*Struct)
+	vfAssert(isStruct && len(room.Fields) == 3, "C12/nodes-are-classified-as-go-types-reports")
+	reached := true
+	for _, n := range []string{"Wall", "Extension", "Location"} {
+		_, ok := ana.Types[lookup(n)].(*Struct)
+		reached = reached && ok
+	}
+	vfAssert(reached, "C12/every-type-reachable-through-fields-is-analysed")
+	stamp, isNamed := ana.Types[lookup("Stamp")].(*Named)
+	isTime := false
+	if isNamed {
+		_, isTime = stamp.Underlying.(*Time)
+	}
+	hs := ana.Types[lookup("Holder")].(*Struct)
+	_, atIsTime := hs.Fields[2].Type.(*Time)
+	vfAssert(isTime && atIsTime, "C12/time-types-are-reported-as-predefined")
+}
+
+// HC11_homonyms: two structs of two packages share their local name; one is a member of a union, the
+// other is not: only the member reports the union in Implements.
+func HC11_homonyms() {
+	sub := vfTypeCheck("example.com/mod/sub", []string{"/m/sub/sub.go"}, []string{
+		"package sub\n\ntype Shape interface{ isShape() }\n\ntype Item struct{ R int }\n\nfunc (Item) isShape() {}\n\ntype Zed struct{ W int }\n\nfunc (Zed) isShape() {}\n"}, nil)
+	order := vfChoice("fieldOrder", 2)
+	fields := []string{"\tMine Item\n", "\tTheirs sub.Item\n"}
+	src := "package p\n\nimport \"example.com/mod/sub\"\n\ntype Item struct{ Name string }\n\ntype Aaa struct{ N int }\n\ntype Holder struct {\n" + fields[order] + fields[1-order] + "\tS sub.Shape\n\tA Aaa\n}\n"
+	pkg := vfTypeCheck("example.com/mod/p", []string{"/m/p/p.go"}, []string{src}, []*packages.Package{sub})
+	var ana *Analysis
+	panicked, rt, msg := vfCatch(func() { ana = NewAnalysisFromFile(pkg, "/m/p/p.go") })
+	vfObserve("outcome", msg)
+	vfAssert(!panicked && !rt, "C11/analysis-of-a-real-source-file-completes")
+	if panicked {
+		return
+	}
+	mine, ok1 := ana.Types[pkg.Types.Scope().Lookup("Item").Type()].(*Struct)
+	theirs, ok2 := ana.Types[sub.Types.Scope().Lookup("Item").Type()].(*Struct)
+	vfAssert(ok1 && ok2, "C11/member-structs-are-analysed")
+	if !ok1 || !ok2 {
+		return
+	}
+	vfAssert(len(theirs.Implements) == 1 && LocalName(theirs.Implements[0]) == "Shape", "C11/implements-lists-exactly-the-analysed-unions-in-name-order-real-source")
+	vfAssert(len(mine.Implements) == 0, "C11/a-struct-of-another-package-with-the-same-local-name-is-not-a-member")
+}
+
+// HC10_manyMembers: the iota flag on enums of more than 64 exported constants.
+func HC10_manyMembers() {
+	shape := vfChoice("shape", 5)
+	n := 66
+	src := "package p\n\ntype E int\n\nconst (\n"
+	wantIota := true
+	for i := 0; i < n; i++ {
+		v := i
+		switch shape {
+		case 1: // a gap after 64 consecutive values
+			if i >= 64 {
+				v = i + 36
+				wantIota = false
+			}
+		case 2: // a duplicate after 64 consecutive values
+			if i >= 64 {
+				v = 63
+				wantIota = false
+			}
+		case 3: // a gap at the very end
+			if i == n-1 {
+				v = 70
+				wantIota = false
+			}
+		case 4: // starting at 1
+			v = i + 1
+			wantIota = false
+		}
+		src += fmt.Sprint("\tM", 100+i, " E = ", v, "\n")
+	}
+	src += ")\n\ntype Holder struct{ V E }\n"
+	pkg := vfTypeCheck("example.com/mod/p", []string{"/m/p/e.go"}, []string{src}, nil)
+	var ana *Analysis
+	panicked, rt, msg := vfCatch(func() { ana = NewAnalysisFromFile(pkg, "/m/p/e.go") })
+	vfObserve("outcome", msg)
+	vfAssert(!panicked && !rt, "C10/analysis-of-a-real-source-file-completes")
+	if panicked {
+		return
+	}
+	enum, isEnum := ana.Types[pkg.Types.Scope().Lookup("E").Type()].(*Enum)
+	vfAssert(isEnum && len(enum.Members) == n, "C10/enum-iff-a-typed-constant-not-opted-out-real-source")
+	if !isEnum {
+		return
+	}
+	vfAssert(enum.IsIota == wantIota, "C10/iota-flag-real-source")
 }
